@@ -20,6 +20,8 @@ TAttrsOnly == [s |-> A("string", FALSE)]
 TRelsOnly  == [m |-> R(FALSE, "tt")]
 \* two attributes whose names differ by their case only
 TCase == [s |-> A("string", FALSE), S |-> A("string", FALSE)]
+\* two to-many relationships (and nothing else)
+TManys == [m |-> R(FALSE, "tt"), k |-> R(FALSE, "tt")]
 NoDef == A("", FALSE)
 Op(o, h, impl, f, v, id, def, unt) ==
     [op |-> o, h |-> h, impl |-> impl, tname |-> "rt", fields |-> IF o = "New" THEN TFields ELSE <<>>,
@@ -31,12 +33,13 @@ Alphabet ==
        { Op("New", 0, i, "", V(0), "", NoDef, FALSE) : i \in {"soft", "wrap"} }
   \cup { NewOf(i, "rta", TAttrsOnly) : i \in {"soft", "wrap"} } \cup { NewOf(i, "rtr", TRelsOnly) : i \in {"soft", "wrap"} }
   \cup { NewOf(i, "rtc", TCase) : i \in {"soft", "wrap"} }
+  \cup { NewOf(i, "rtm", TManys) : i \in {"soft", "wrap"} }
   \cup { Op("ZeroNew", 0, "soft", "", V(0), "", NoDef, FALSE) }
   \cup { Op("Set", h, "", p[1], p[2], "", NoDef, FALSE) : h \in H,
             p \in { <<"s", V(1)>>, <<"s", V(2)>>, <<"n", V(0)>>, <<"n", V(1)>>, <<"n", V(2)>>, <<"n", NilV>>, <<"b", V(1)>>, <<"b", V(2)>>,
                     <<"q", V(1)>>, <<"q", NilV>>, <<"o", Ids(<<"a">>)>>, <<"o", Ids(<<>>)>>,
                     <<"m", Ids(<<"b", "a">>)>>, <<"m", Ids(<<"c", "b", "a">>)>>, <<"m", Ids(<<>>)>>,
-                    <<"m", Ids(<<"a", "b", "a">>)>>, <<"S", V(1)>>, <<"S", V(2)>> } }
+                    <<"m", Ids(<<"a", "b", "a">>)>>, <<"S", V(1)>>, <<"S", V(2)>>, <<"k", Ids(<<"b", "a", "d">>)>>, <<"k", Ids(<<"e">>)>> } }
   \cup { Op("Set", h, "", f, NilV, "", NoDef, TRUE) : h \in H, f \in {"n", "q"} }   \* untyped nil
   \cup { Op("Set", h, "", "b", V(0), "", NoDef, TRUE) : h \in H }                  \* empty bytes given as a nil slice
   \cup { Op("SetID", h, "", "", V(0), id, NoDef, FALSE) : h \in H, id \in {"i1", "i2", ""} }
@@ -108,6 +111,9 @@ Variants(e) ==
   \cup { [e EXCEPT !.vals[f] = AltVal(e, f)] : f \in DOMAIN e.fields }
   \cup { [e EXCEPT !.vals[f] = NilV] : f \in {"n", "q"} }
   \cup { [e EXCEPT !.vals["m"] = Ids(<<"a", "c", "b">>)] }
+  \* ids that hold a comma: two lists that read the same once joined by commas, and the empty id against no id
+  \cup { [e EXCEPT !.vals["m"] = Ids(<<"a,b">>)], [e EXCEPT !.vals["m"] = Ids(<<"a", "b">>)],
+         [e EXCEPT !.vals["m"] = Ids(<<"a", "b,c">>)], [e EXCEPT !.vals["m"] = Ids(<<"a,b", "c">>)], [e EXCEPT !.vals["m"] = Ids(<<"">>)] }
   \* as many ids, all of them among the other side's, yet another set
   \cup { [e EXCEPT !.vals["m"] = Ids(<<"a", "a", "b">>)], [e EXCEPT !.vals["m"] = Ids(<<"c", "c", "c">>)] }
   \* the same attribute name with another kind: a zero of another width prints the same
